@@ -106,10 +106,15 @@ def get_facts(crate_dir="/repo", config="default", crate_name="flatcontainer", e
         lock.close()
 
 
-def prune(keep=20):
+def prune(keep=40):
     """least-recently-used eviction (a cache hit touches the file); stale lock files go too"""
+    def mtime(p):
+        try:
+            return os.path.getmtime(p)
+        except OSError:
+            return 0.0
     fs = [os.path.join(CACHE, f) for f in os.listdir(CACHE) if f.startswith("facts-")]
-    fs.sort(key=lambda p: os.path.getmtime(p), reverse=True)
+    fs.sort(key=mtime, reverse=True)
     for p in fs[keep:]:
         try:
             os.remove(p)
